@@ -254,7 +254,7 @@ wait:
 	}
 	stack := se.String()
 	if i := strings.Index(stack, "github.com/gopcua/opcua/ua."); i > 2000 {
-		stack = stack[:1000] + "\n…\n" + stack[i-200:] // keep the head (the fatal error) and the first frames inside the library
+		stack = stack[:1000] + "\n…\n" + stack[i-600:] // keep the head (the fatal error) and the first frames inside the library
 	}
 	if len(stack) > 12000 {
 		stack = stack[:12000]
